@@ -2,6 +2,8 @@
 import persist_common as pc
 
 SHRINKABLE = True
+MODEL = "persist"
+model_lines = pc.model_lines
 PROP = "C01"
 RULE = ("generated UFO-3-valid fonts (1-3 layers, 0-6 glyphs each with outlines/components/anchors/guidelines/image/lib/"
         "note, info, kerning+groups, features, lib, images, data incl. nested paths; package or zip; opened from disk with a "
@@ -19,7 +21,7 @@ MODES = ["inplace", "inplace", "new", "overufo", "overfile"]
 
 
 def generate(rng, tier):
-    n = 120 if tier == "quick" else 3000
+    n = 500 if tier == "quick" else 6000
     for _ in range(n):
         yield pc.gen_case(rng, tier, MODES)
 
